@@ -291,8 +291,10 @@ func frGenRead(level int, emit func(*frReadCase)) {
 			sid := sids[i%len(sids)]
 			def(frRawX(s.ty, s.fl, sid, s.payload), "raw")
 			if level > 1 {
-				for _, sid := range sids {
-					def(frRawX(s.ty, s.fl|0x40, sid, s.payload), "raw")
+				for k, sid := range sids {
+					if (i+k)%2 == 0 {
+						def(frRawX(s.ty, s.fl|0x40, sid, s.payload), "raw")
+					}
 				}
 			}
 			// (b) the limit: exactly the payload length, one less, much bigger, none
@@ -315,8 +317,13 @@ func frGenRead(level int, emit func(*frReadCase)) {
 			if level > 1 && len(shapes) > 4 {
 				picks = append(picks, shapes[len(shapes)/2], shapes[1])
 			}
-			for _, s := range picks {
+			for k, s := range picks {
 				for fl := 0; fl < 256; fl++ {
+					// level 1: all 256 octets on the legal shape of the ten known types, every
+					// single bit and a few mixes elsewhere
+					if level == 1 && (k > 0 || ty > 9) && !(fl&(fl-1) == 0 || fl == 0xff || fl == 0x2d || fl == 0xd2 || fl == 0x0d) {
+						continue
+					}
 					def(frRawX(s.ty, byte(fl), 1, s.payload), "raw-flags")
 				}
 			}
@@ -733,7 +740,7 @@ func frRunWrite(tw *TraceW, t int, c *frWriteCase) {
 		src = nil
 	}
 	tw.Emit(t, map[string]any{"ev": "write", "how": c.How, "a": a, "src": frDescribe(src), "rres": rres, "panic": pan,
-		"wn": int(wn), "werr": werr, "out": frDescribe(out), "x": frXRead(out, 0), "xs": frXRead(src, 0)})
+		"wn": int(wn), "werr": werr, "out": frDescribe(out), "x": frXRead(out, 0)})
 }
 
 // frGenWrite: every frame type through constructors and setters, over setter
